@@ -10,6 +10,7 @@ package main
 
 import (
 	"bytes"
+	"context"
 	"encoding/json"
 	"fmt"
 	"os"
@@ -117,7 +118,9 @@ func runJlOnce(args []string, line []byte) string {
 	if jlRouteDir == "" {
 		jlRouteDir = jlScratch("route")
 	}
-	cmd := exec.Command(jlBin(), args...)
+	ctx, cancel := context.WithTimeout(context.Background(), 30*time.Second) // a command that hangs is stopped and reported
+	defer cancel()
+	cmd := exec.CommandContext(ctx, jlBin(), args...)
 	cmd.Dir = jlRouteDir
 	cmd.Env = append(os.Environ(), "TZ=UTC", "HOME="+jlRouteDir)
 	cmd.Stdin = bytes.NewReader(append(append([]byte{}, line...), '\n'))
@@ -224,7 +227,9 @@ func emitStreamJl(cw *caseWriter, prop string, ti, to []colDesc, data []byte, un
 	if jlRouteDir == "" {
 		jlRouteDir = jlScratch("route")
 	}
-	cmd := exec.Command(jlBin(), args...)
+	ctx, cancel := context.WithTimeout(context.Background(), 120*time.Second)
+	defer cancel()
+	cmd := exec.CommandContext(ctx, jlBin(), args...)
 	cmd.Dir = jlRouteDir
 	cmd.Env = append(os.Environ(), "TZ=UTC", "HOME="+jlRouteDir)
 	reader := "-"
